@@ -209,6 +209,10 @@ LINEAR_WRAPPERS = {'np.sum', 'np.average', 'np.mean', 'sum', 'np.add.accumulate'
                    'np.asarray', 'float', 'np.float64', 'np.nansum', 'np.nanmean'}
 
 
+# name -> FunctionDef of module-level helper functions that are safe to inline (set by the runner from the analysed tree)
+INLINE_FUNCTIONS: Dict[str, ast.FunctionDef] = {}
+
+
 class Translator:
     """AST expression -> Rat.
 
@@ -227,6 +231,7 @@ class Translator:
         self.inline = inline
         self.opaque_ok = opaque_ok
         self.call_hook = call_hook
+        self._inl_depth = 0
         self._memo: Dict[int, Rat] = {}
         self._active: Set[int] = set()
 
@@ -283,6 +288,16 @@ class Translator:
                 if r is not None:
                     return r
             d = dotted_name(node.func) or norm(node.func)
+            if isinstance(node.func, ast.Name) and node.func.id in INLINE_FUNCTIONS and self._inl_depth < 3:
+                # a helper of the repository whose body is named intermediates + one returned expression: translate that expression
+                from .inline import inline_simple_calls
+                e2 = inline_simple_calls(node, {node.func.id: INLINE_FUNCTIONS[node.func.id]})
+                if not (isinstance(e2, ast.Call) and isinstance(e2.func, ast.Name) and e2.func.id == node.func.id):
+                    self._inl_depth += 1
+                    try:
+                        return self.tr(e2)
+                    finally:
+                        self._inl_depth -= 1
             if d in ('sum', 'np.sum', 'math.fsum') and len(node.args) == 1 and isinstance(node.args[0], (ast.List, ast.Tuple)) and \
                     not node.keywords and not any(isinstance(e, ast.Starred) for e in node.args[0].elts):
                 acc = Rat.const(0)
